@@ -1,8 +1,16 @@
 (* C09 — a failed pooled connection is discarded and pool capacity is conserved.
    Model/Pooled.v: hand model of ObjectPool (sequential use) and of PooledClient's wrappers on top of the
-   Client model; run against the real PooledClient on every check (faults, idle gaps, pool sizes). *)
-From Coq Require Import ZArith List Bool.
-From PM Require Import Lib.Py Model.World Model.Readers Model.Client Model.Pooled Proofs.PoolProof.
+   Client model; run against the real PooledClient on every check (faults, idle gaps, pool sizes).
+     c09_used_zero / c09_failed_discarded / c09_checkout / c09_never_exhausted / c09_release   (Proofs/PoolProof.v)
+     c09_reuse             checkout hands out the first idle connection still inside pool_idle_timeout exactly as it is
+                           (its socket untouched: not closed, not reopened); the idle connections scanned before it had
+                           expired and have been closed and dropped; a NEW connection is created only when every idle
+                           connection had expired (each closed and dropped)
+     c09_failed_retired    a connection whose call escaped with a caught exception is closed and retired
+     c09_never_again       a retired connection (failed, expired, quit, cleared) is never returned by checkout, and stays
+                           retired along every history of PooledClient calls (Proofs/PoolReuse.v) *)
+From Coq Require Import ZArith List Bool Lia.
+From PM Require Import Lib.Py Model.World Model.Readers Model.Client Model.Pooled Proofs.PoolProof Proofs.PoolReuse.
 Import ListNotations.
 Open Scope Z_scope.
 
@@ -44,3 +52,39 @@ Theorem c09_release : forall P cid p w, Held cid p ->
   let '(r, p', w') := pool_release P cid p w in
   r = Ok tt /\ PInv p' /\ exists now, p_free p' = p_free p ++ [(cid, now)].
 Proof. exact PoolProof.pool_release_spec. Qed.
+
+(* ---- reuse before reopening; idle expiry ---- *)
+Theorem c09_reuse : forall P pc p w, PInv p -> 1 <= pc_max pc ->
+  let '(r, p', w') := pool_get P pc p w in
+  match r with
+  | Ok c =>
+      (exists pre last, p_free p = pre ++ (c, last) :: p_free p' /\ now_of p - last <= pc_idle pc /\
+                        sock_get (p_socks p') c = sock_get (p_socks p) c /\
+                        Forall (fun e => now_of p - snd e > pc_idle pc /\ sock_get (p_socks p') (fst e) = None) pre)
+      \/ (c = p_next p /\ p_free p' = [] /\
+          Forall (fun e => now_of p - snd e > pc_idle pc /\ sock_get (p_socks p') (fst e) = None) (p_free p))
+  | Raise _ => True
+  end.
+Proof. exact PoolReuse.pool_get_reuses. Qed.
+Print Assumptions c09_reuse.
+
+(* ---- never handed out again ---- *)
+Theorem c09_failed_retired : forall P A pc (body : Z -> PM P A) p w cid p1 w1 e p2 w2,
+  PInv p -> 1 <= pc_max pc -> framed P (body cid) ->
+  pool_get P pc p w = (Ok cid, p1, w1) -> body cid p1 w1 = (Raise e, p2, w2) -> exn_isa e (pc_h_pool pc) = true ->
+  let '(r, p', w') := with_client P pc body p w in Retired cid p' /\ sock_get (p_socks p') cid = None.
+Proof. exact PoolReuse.failed_is_retired. Qed.
+Theorem c09_never_again : forall P peer c pc cid,
+  (forall p w, Retired cid p -> let '(r, p', w') := pool_get P pc p w in Retired cid p' /\ (forall c0, r = Ok c0 -> c0 <> cid)) /\
+  (forall ops p w, Retired cid p -> Retired cid (snd (fst (pooled_ops P peer c pc ops p w)))).
+Proof. intros P peer c pc cid. split; [exact (PoolReuse.pool_get_retired P pc cid)|exact (PoolReuse.retired_forever P peer c pc cid)]. Qed.
+Print Assumptions c09_never_again.
+
+(* non-vacuity: an idle connection inside the timeout is reused, one outside is closed and a new one made *)
+Example c09_reuse_ex :
+  let pc := {| pc_max := 2; pc_idle := 10; pc_h_pool := BaseException |} in
+  let p0 := {| p_used := []; p_free := [(0, 100); (1, 195)]; p_next := 2; p_socks := [(0, Some 7); (1, Some 8)]; p_clock := [200; 300]; p_created := 2 |} in
+  let w0 := init_world tt [] [] in
+  let '(r1, p1, w1) := pool_get unit pc p0 w0 in
+  PInv p0 /\ r1 = Ok 1 /\ sock_get (p_socks p1) 1 = Some 8 /\ sock_get (p_socks p1) 0 = None /\ p_free p1 = [].
+Proof. cbn zeta. vm_compute. repeat split; try reflexivity; repeat constructor; cbn; intuition (try discriminate; try lia). Qed.
